@@ -37,7 +37,11 @@ def main(argv=None):
         try:
             pl = importlib.import_module('vlib.vc.run')
             from vlib.vc import contracts_all
-            proof = pl.run_property(pid, cfg['proof'], tier, seed) if contracts_all.TARGETS.get(pid) else None
+            if pid == 'C19':
+                from vlib.cy import check as cycheck
+                proof = cycheck.run(tier, seed)
+            else:
+                proof = pl.run_property(pid, cfg['proof'], tier, seed) if contracts_all.TARGETS.get(pid) else None
         except Exception:  # noqa
             import traceback
             crashes.append(dict(fn='proof-layer', tb=traceback.format_exc()[-3000:]))
